@@ -2,6 +2,7 @@
 From Coq Require Import List NArith ZArith String Bool.
 From DT Require Import GenStatus GenEvent GenMsgType FsmTypes GenFsm Fsm Machine View Caches Msg Node
      FsmFacts NodeFacts NodeKeyed.
+From DT Require C05Local.
 Import ListNotations.
 
 (* whatever the input, sender and oracle answers: an input that names channel k (every message
@@ -32,3 +33,23 @@ Theorem C05_keyed_others_same :
   forall A k (p : prog A) s, others_same k s (snd (run_keyed k p s)).
 Proof. exact keyed_others_same. Qed.
 Print Assumptions C05_keyed_others_same.
+
+(* local calls in the wrong role: the initiator of a channel cannot issue a validation update for it
+   (the call fails and the node's state is untouched), a voucher result for a channel this node
+   initiated and a voucher for a channel it did not initiate are refused after merely reading the
+   channel: nothing is sent, recorded or announced *)
+Theorem C05_initiator_cannot_update_validation :
+  forall s k vr, k_init k = n_self (s_node s) -> run (update_validation k vr) s = (ROther, s).
+Proof. exact C05Local.initiator_cannot_update_validation. Qed.
+Print Assumptions C05_initiator_cannot_update_validation.
+
+Theorem C05_wrong_role_voucher_calls_only_read :
+  forall s k v,
+    (k_init k = n_self (s_node s) ->
+       run (send_voucher_result k v) s = (match fst (run (exec (IGet k)) s) with None => RNotFound | Some _ => ROther end,
+                                          snd (run (exec (IGet k)) s))) /\
+    (k_init k <> n_self (s_node s) ->
+       run (send_voucher k v) s = (match fst (run (exec (IGet k)) s) with None => RNotFound | Some _ => ROther end,
+                                   snd (run (exec (IGet k)) s))).
+Proof. exact C05Local.wrong_role_voucher_calls_only_read. Qed.
+Print Assumptions C05_wrong_role_voucher_calls_only_read.
